@@ -93,7 +93,7 @@ func Load(dir, pkgPath string, overlay map[string][]byte) (*Engine, error) {
 	}
 	eng.initDeny = []string{
 		"runtime", "os", "syscall", "reflect", "unsafe", "net", "testing", "internal/", "crypto/", "log", "plugin",
-		"os/", "net/", "runtime/", "time", "math/big", "math/rand", "encoding/json", "encoding/gob", "encoding/xml", "encoding/asn1",
+		"os/", "net/", "runtime/", "math/big", "math/rand", "encoding/json", "encoding/gob", "encoding/xml", "encoding/asn1",
 		"text/", "html/", "go/", "database/", "debug/", "embed", "expvar", "flag", "mime", "archive/", "compress/", "image", "regexp", "vendor/", "iter", "weak", "unique", "sync", "hash/crc32", "hash/maphash", "bufio", "path", "io/fs", "io/ioutil",
 	}
 	registerIntrinsics(eng)
@@ -179,6 +179,11 @@ func (w *Worker) initPackage(pkg *ssa.Package) {
 					msg = "panic: " + toString(r.v) + " at " + r.where
 				case pathEnd:
 					msg = r.reason
+				case enginePanic:
+					msg = fmt.Sprintf("engine error: %v at %s", r.val, r.where)
+					if os.Getenv("VERIF_DEBUG_INIT") != "" {
+						msg += "\n" + r.stack
+					}
 				default:
 					msg = fmt.Sprintf("engine error: %v", r)
 					if os.Getenv("VERIF_DEBUG_INIT") != "" {
